@@ -339,6 +339,9 @@ func buildPool(seed int64, sharedDoc testDoc, resolve func(dotted string) (merkl
 		add(opLoad("gw", u))
 	}
 	add(opLoad("gw", urlUnknown))
+	for _, su := range slowURLs {
+		add(opLoad("gw", su.url))
+	}
 	add(opLoad("gw", "ftp://example.org/unsupported-scheme"))
 	add(opLoad("gw", "ipfs://QmeMevwUeD7o6hjfmdaeFD1q4L84hSDiRjeXZLi1bZK1My"))
 	// the same IPFS resources under all their names, through a gateway, a node client, and both
@@ -520,6 +523,13 @@ func runMix(cfg *config, out *output) error {
 			ipfsOps = append(ipfsOps, i)
 		}
 	}
+	var slowOps []int // loads of slow origins whose responses are not cacheable / short-lived
+	for _, i := range byKind["load"] {
+		a := pool[i].arg
+		if strings.HasPrefix(a, "https://origin.example.org/c20/") || a == ctxload.URLKYCv101 || a == ctxload.URLDeliveryAddress {
+			slowOps = append(slowOps, i)
+		}
+	}
 	for r := 0; r < rounds; r++ {
 		results := make([][]opResult, n)
 		start := make(chan struct{})
@@ -538,6 +548,11 @@ func runMix(cfg *config, out *output) error {
 					if i == 0 && r == 0 && len(mzOps) > 0 {
 						// everybody starts on the untouched shared merklizer at the same moment
 						idx = mzOps[rng.Intn(len(mzOps))]
+					}
+					if (i == 3 || i == 4) && len(slowOps) > 0 {
+						// ... and then everybody loads one of the few slow, uncacheable origins: many
+						// loads of one URL are in flight together
+						idx = slowOps[rng.Intn(len(slowOps))]
 					}
 					if (i == 1 || i == 2) && len(ipfsOps) > 0 {
 						// ... and then loads the same few IPFS resources under their different names
